@@ -3,7 +3,7 @@ Model: coq/Model/Gating.v; spec: coq/Spec/GatingSpec.v; theorems: coq/Props/C09.
 Every case is one real Manager call on a capturing session (tools/harness/capture.py)."""
 import itertools, json
 ID = 'C09'
-COQ_ROOTS = ['Props/C09.v']
+COQ_ROOTS = ['Props/C09.v', 'GenProps/Caps_consts.v', 'GenProps/Gating_consts.v']
 RULE = ('case = (device profile, server capability list, Manager method, arguments). Capability lists: all 2^8 subsets of '
         '{candidate, confirmed-commit, validate:1.0, validate:1.1, rollback-on-error, url, notification, with-defaults} in '
         'both URN forms (and mixed), the 4 subsets of the two power-control URIs, with-defaults URIs over a grammar of '
